@@ -14,13 +14,14 @@ namespace PedVerif.GenWrap
 def generatorNames : List String := ["typing.Generator", "collections.abc.Generator"]
 def iteratorNames : List String := ["typing.Iterator", "typing.Iterable", "collections.abc.Iterator", "collections.abc.Iterable"]
 
-/-- (yield, send, return) types: `Generator[Y, S, R]`; `Iterator[Y]` / `Iterable[Y]` = `Generator[Y, None, None]`.
+/-- (yield, send, return) types: `Generator[Y, S, R]`; `Iterator[Y]` / `Iterable[Y]` = `Generator[Y, None, None]`, and so is
+    `Generator[Y]` (the defaults of PEP 696 / Python 3.13; on 3.12 only `collections.abc.Generator[Y]` can be written at all).
     A string annotation (`-> 'Iterator[int]'`, every annotation under `from __future__ import annotations`) means what
     it evaluates to. -/
 def annMeaning (a : Ann) : Option Types :=
   match a.args with
   | [y, s, r] => if generatorNames.contains a.base then some ⟨y, s, r⟩ else none
-  | [y] => if iteratorNames.contains a.base then some ⟨y, .none, .none⟩ else none
+  | [y] => if iteratorNames.contains a.base || generatorNames.contains a.base then some ⟨y, .none, .none⟩ else none
   | _ => none
 
 /-- does a generator object conform to the annotation at all (if not, C03 demands that the caller never gets it) -/
@@ -28,8 +29,11 @@ def annAdmitsGenerator (a : Ann) : Bool :=
   generatorNames.contains a.base || iteratorNames.contains a.base
     || ["typing.Any", "object", "typing.Optional", "typing.Union"].contains a.base
 
-/-- the spelling the library documents: `typing.Generator[…]`, `typing.Iterator[…]`, `typing.Iterable[…]` -/
-def typingSpelling (a : Ann) : Bool := !a.quoted && ["typing.Generator", "typing.Iterator", "typing.Iterable"].contains a.base
+/-- the spellings the library supports: the annotation *object* in the `typing` or in the `collections.abc` spelling
+    (`typing.Generator[…]`, `collections.abc.Iterator[…]`, …) - everything `annMeaning` knows except a string annotation,
+    which is handed over unevaluated (open finding `generatorAnnotationSpelling`, narrowed to strings by the repair that
+    made `_set_and_check_return_types` accept the collections.abc classes) -/
+def supportedSpelling (a : Ann) : Bool := !a.quoted
 
 /-! ## C03 (generator clause), per step of an interaction -/
 
